@@ -32,6 +32,7 @@ pub fn run(tier: Tier, seed: u64) -> i32 {
     commit_checks(&ev, tier, seed);
     opening_checks(&ev, tier, seed);
 
+    ev.floor("aggregated openings over more than 16 polynomials", ev.set_members_above("aggregate_sizes", 16), tier.pick(3, 6));
     ev.floor("srs degrees", ev.set_len("srs_degrees") as u64, tier.pick(10, 30));
     ev.floor("reference strings of more than 2^13 points", ev.bucket_get("srs.beyond_2^13_points"), 1);
     ev.floor("commit at boundary (Err)", ev.bucket_get("commit.boundary_err"), 5);
@@ -248,7 +249,17 @@ fn opening_checks(ev: &Ev, tier: Tier, seed: u64) {
         let mut opens: Vec<Open> = Vec::new();
         for j in 0..m {
             // some entries are aggregated openings of k polynomials at one point
-            let k = if (ci as usize + j) % 3 == 0 { 1 + rng.next_u32() as usize % 6 } else { 1 };
+            // (mostly 1..6; sometimes many more than any caller in the crate
+            // aggregates - the prover opens 12 and 4 - incl. 15..18, 31..34, 64)
+            let k = if (ci as usize + j) % 3 == 0 {
+                match rng.next_u32() % 4 {
+                    0 => [12usize, 15, 16, 17, 18, 31, 32, 33, 34, 40, 64][rng.next_u32() as usize % 11],
+                    _ => 1 + rng.next_u32() as usize % 6,
+                }
+            } else {
+                1
+            };
+            ev.set_insert("aggregate_sizes", k);
             let z = if rng.next_u32() % 8 == 0 { pool_scalar(&mut rng) } else { rand_scalar(&mut rng) };
             let polys: Vec<Vec<BlsScalar>> = (0..k)
                 .map(|_| {
